@@ -80,6 +80,9 @@ def factories(rng):
     add('vq-cosine-heads-expiry', lambda: VectorQuantize(dim=4, codebook_size=5, heads=2, codebook_dim=2, use_cosine_sim=True, threshold_ema_dead_code=2), 4, True, None, has_cb=True)
     add('vq-heads', lambda: VectorQuantize(dim=4, codebook_size=5, heads=2, separate_codebook_per_head=True, codebook_dim=2, decay=0.5, threshold_ema_dead_code=1), 4, True, None, has_cb=True)
     add('vq-stochastic', lambda: VectorQuantize(dim=3, codebook_size=5, stochastic_sample_codes=True, sample_codebook_temp=0.5, threshold_ema_dead_code=1), 3, True, dec_vq, has_cb=True, stochastic=True)
+    add('vq-cosine-stochastic', lambda: VectorQuantize(dim=3, codebook_size=6, use_cosine_sim=True, stochastic_sample_codes=True, sample_codebook_temp=0.5, decay=0.5), 3, True, dec_vq, has_cb=True, stochastic=True)
+    add('vq-heads-stochastic-st', lambda: VectorQuantize(dim=4, codebook_size=5, heads=2, codebook_dim=2, stochastic_sample_codes=True, straight_through=True, rotation_trick=False, sample_codebook_temp=1.0), 4, True, None, has_cb=True, stochastic=True)
+    add('rvq-cosine-stochastic', lambda: ResidualVQ(dim=3, num_quantizers=2, codebook_size=6, use_cosine_sim=True, stochastic_sample_codes=True, sample_codebook_temp=0.5), 3, True, dec_vq, stochastic=True)
     add('vq-kmeans', lambda: VectorQuantize(dim=3, codebook_size=4, kmeans_init=True, kmeans_iters=3, threshold_ema_dead_code=1), 3, True, dec_vq, has_cb=True, kmeans=True)
     add('vq-learnable-inplace', lambda: VectorQuantize(dim=3, codebook_size=5, learnable_codebook=True, ema_update=False,
                                                        in_place_codebook_optimizer=partial(SGD, lr=0.5)), 3, True, dec_vq, has_cb=True)
@@ -104,6 +107,11 @@ def factories(rng):
     add('rsimvq', lambda: ResidualSimVQ(dim=3, num_quantizers=2, codebook_size=6), 3, False, dec_vq)
     add('rpq', lambda: RandomProjectionQuantizer(dim=4, codebook_size=5, codebook_dim=2, num_codebooks=2), 4, False, None)
     add('latent', lambda: LatentQuantize(levels=[3, 4], dim=2), 2, False, lambda m, idx: m.indices_to_codes(idx), image=True)
+    # all-pairs covering set of VectorQuantize option combinations (vlib/zoo.py)
+    from vlib import zoo
+    for zname, zc, zkw in zoo.configs():
+        add(zname, (lambda zkw=zkw: VectorQuantize(**zkw())), zkw()['dim'], True, dec_vq if zc['heads'] == '1' else None, has_cb=True,
+            stochastic=zc['sampling'] != 'argmax', kmeans=zc['init'] == 'kmeans')
     return F
 
 
@@ -234,7 +242,7 @@ def correspond(ctx, scale):
         failures.append({'key': f'{m["name"]}:{m["op"]}:model-state-differs:{code}', 'what': f'{m["name"]}: the model (pure step = identity) and the implementation disagree on the state after "{m["op"]}" (component {code}); history {m["ops"]}',
                          'case': dict(m, term=cases[i][:30000])})
     return {'evaluations': evaluations, 'distinct_nontrivial': nontrivial,
-            'rule': 'random walks over {train, eval, frozen, decode} x 31 module configurations; state_dict + parameters + buffers compared bit-exactly around every pure operation, pure calls repeated; '
+            'rule': 'random walks over {train, eval, frozen, decode} x 34 hand-written + 16 all-pairs (vlib/zoo.py) module configurations; state_dict + parameters + buffers compared bit-exactly around every pure operation, pure calls repeated; '
                     'codebook-bearing pure calls also replayed through the Coq model (identity step); non-trivial = pure op executed after at least one state-changing training step',
             'samples': samples, 'failures': failures, 'distribution': dist}
 
